@@ -262,6 +262,22 @@ func (r *Run) Violate(check string, c any, err error) {
 	r.res.Violations = append(r.res.Violations, Violation{Check: check, Case: b, Error: err.Error()})
 }
 
+// Checkpoint records the case that is about to run, for failures that kill or
+// fail the process without returning to the check (the race detector): the
+// driver turns the last checkpoint into the replay case.
+func (r *Run) Checkpoint(check string, c any) {
+	if r.OutDir == "" {
+		return
+	}
+	b, err := json.Marshal(c)
+	if err != nil {
+		return
+	}
+	rf := ReplayFile{Property: r.ID, Check: check, Case: b}
+	out, _ := json.Marshal(&rf)
+	_ = os.WriteFile(filepath.Join(r.OutDir, "checkpoint.json"), out, 0o644)
+}
+
 func (r *Run) Violations() int { r.mu.Lock(); defer r.mu.Unlock(); return len(r.res.Violations) }
 
 // Finish writes the result file. Must be deferred by every test function.
